@@ -20,7 +20,7 @@ RULE = (
 )
 ASSUMPTIONS = ["class comparison bounded by N=6 (quick) / 7 (thorough, classical)", "oracle: vf/oracle/mesh.py region semantics for mesh-in-mesh containment"]
 REQUIRED = ["calls.Basis.__new__", "calls.MeshBasis.__new__", "pruned.classical", "pruned.mesh", "mixed.subclasses", "orders.compared",
-            "from_string.checked", "av_identity.checked", "identity_history.checked"]
+            "from_string.checked", "av_identity.checked", "identity_history.checked", "collections.two_monotone_plus_avoiders", "collections.big_antichains"]
 MIN_NONTRIVIAL = 100
 CTX = None
 MON = None
@@ -211,7 +211,8 @@ def rand_patt(rng, kmax=2):
 def plan(tier, seed):
     small = [list(p) for k in (1, 2, 3) for p in itertools.permutations(range(k))]
     multis = [list(c) for r in (1, 2, 3) for c in itertools.combinations_with_replacement(small, r)]
-    specs = [{"name": f"classical-{i}", "kind": "classical", "cols": multis[i::4]} for i in range(4)]
+    specs = [{"name": f"classical-{i}", "kind": "classical", "cols": multis[i::4], "monotone": 12 if tier == "quick" else 80,
+              "antichains": [[5], [6], [4], [5]][i] if tier == "quick" else [[5, 6], [6], [4, 6], [5]][i]} for i in range(4)]
     nrand = 1500 if tier == "quick" else 10000
     specs += [{"name": f"mixed-{i}", "kind": "mixed", "count": nrand // 16, "kmax": 2 if tier == "quick" else 3} for i in range(16)]
     return specs
@@ -239,7 +240,30 @@ def run(ctx, spec):
             rng.shuffle(col)
             chk_collection(ctx, col, 8)
             chk_from_string(ctx, col, rng.choice([["_"], [":", ", "], [" "], ["x", "-"]]))
-        ctx.sample({"collection": col})
+        # an increasing and a decreasing pattern of different lengths plus patterns that avoid both (their lengths range over
+        # everything Erdos-Szekeres allows: up to (a-1)(b-1))
+        for _ in range(spec.get("monotone", 0)):
+            a, b = rng.sample([3, 4, 5], 2)
+            col = [list(range(a)), list(range(b - 1, -1, -1))]
+            for _ in range(rng.randint(1, 3)):
+                L = rng.randint(2, (a - 1) * (b - 1))
+                for _try in range(400):
+                    q = rng.sample(range(L), L)
+                    if not C.contains(tuple(q), tuple(col[0])) and not C.contains(tuple(q), tuple(col[1])):
+                        col.append(q)
+                        break
+            rng.shuffle(col)
+            chk_collection(ctx, col, 6)
+            ctx.count("collections.two_monotone_plus_avoiders")
+        # antichains with hundreds of elements: every permutation of one length (nothing can be pruned), plus a few longer
+        # patterns (all of which must be pruned)
+        for L in spec.get("antichains", []):
+            col = [list(q) for q in itertools.permutations(range(L))]
+            rng.shuffle(col)
+            col += [rng.sample(range(L + 1), L + 1) for _ in range(3)]
+            chk_collection(ctx, col, 1)
+            ctx.count("collections.big_antichains")
+        ctx.sample({"collection": col[:6]})
     else:
         for _ in range(spec["count"]):
             col = [rand_patt(rng, spec["kmax"]) for _ in range(rng.randint(1, 4))]
